@@ -1075,11 +1075,15 @@ func main() {
 	run.Set("bodies", len(bodyOrder))
 
 	for i := 0; i < nRecs; i++ {
-		g := &sarama.VerifGen{R: r.Fork(), MaxLen: 4}
+		g := &sarama.VerifGen{R: r.Fork(), MaxLen: 4, Levels: true}
 		recordCase(g.NewRecord())
 		batchCase(g.NewBatch())
-		ms, pairs := g.NewMessageSet(1 + i%2)
-		msetCase(ms, pairs)
+		// building a wrapper message encodes its inner set: a panic there must not end the run
+		run.Safe("generate message set", func() string {
+			ms, pairs := g.NewMessageSet(1 + i%2)
+			msetCase(ms, pairs)
+			return ""
+		})
 	}
 	for codec := 0; codec <= 4; codec++ {
 		batchCase(denseBatch(r.Fork(), codec, 150+r.Intn(300), false))
@@ -1093,7 +1097,7 @@ func main() {
 	// the other guard of getArrayLength on the record count: 2·MaxUint16
 	batchCase(denseBatch(r.Fork(), 0, 131070, false))
 	batchCase(denseBatch(r.Fork(), 0, 131071, false))
-	truncations(r)
+	run.Safe("truncation stream", func() string { truncations(r); return "" })
 	constLines()
 	// every codec × level grid on one batch shape
 	for codec := 0; codec <= 4; codec++ {
